@@ -91,6 +91,23 @@ func runC18(raw json.RawMessage, w *Writer) {
 		if got2 != nil {
 			e["wire_back"] = durJOf(*got2)
 		}
+		// the same payload decoded into a value the CONSTRUCTOR built with offset zero; afterwards a newly constructed
+		// zero-offset value must still report zero (nothing the constructor hands out may be shared between values)
+		var got3, zero *time.Duration
+		r3, _ := guard(func() {
+			b, _ := rtp.NewAbsCaptureTimeExtensionWithCaptureClockOffset(time.Unix(1700000000, 5), durOf(c.D)).Marshal()
+			x := rtp.NewAbsCaptureTimeExtensionWithCaptureClockOffset(time.Unix(1600000000, 7), 0)
+			_ = x.Unmarshal(b)
+			got3 = x.EstimatedCaptureClockOffsetDuration()
+			zero = rtp.NewAbsCaptureTimeExtensionWithCaptureClockOffset(time.Unix(1650000000, 9), 0).EstimatedCaptureClockOffsetDuration()
+		})
+		e["reuse_res"], e["reuse_present"], e["reuse_back"], e["zero_present"], e["zero_back"] = r3, got3 != nil, durJOf(0), zero != nil, durJOf(0)
+		if got3 != nil {
+			e["reuse_back"] = durJOf(*got3)
+		}
+		if zero != nil {
+			e["zero_back"] = durJOf(*zero)
+		}
 		w.Emit(e)
 	case "estimate":
 		send := inst(c.Send)
